@@ -2,8 +2,6 @@ import Gojq.Proofs.RoundTripLexTok3
 namespace Gojq.RefTerm
 open Gojq Gojq.Lexer Gojq.Generated.Lalr
 
-def numStop (fol : Bytes) : Bool := !(isNumber (peek fol) || peek fol == 46 || isIdent (peek fol) false)
-
 theorem scanNumber_nil (st : NumState) (fol : Bytes) (h : scanNumber st [] = (0, true)) (hf : numStop fol = true) :
     scanNumber st fol = (0, true) := by
   cases fol with
@@ -22,6 +20,19 @@ theorem scanNumber_nil (st : NumState) (fol : Bytes) (h : scanNumber st [] = (0,
 theorem scanNumber_app (st : NumState) (r : Bytes) : ∀ (fol : Bytes), scanNumber st r = (r.length, true) →
     numStop fol = true → scanNumber st (r ++ fol) = (r.length, true) := by
   fun_induction scanNumber st r
-  all_goals trace_state
-  all_goals sorry
+  case case1 => intro fol _ hf; exact scanNumber_nil _ fol rfl hf
+  case case2 => intro fol _ hf; exact scanNumber_nil _ fol rfl hf
+  case case3 => intro fol h; simp at h
+  case case4 => intro fol h; simp at h
+  case case5 => intro fol _ hf; exact scanNumber_nil _ fol rfl hf
+  all_goals (intro fol h hf)
+  all_goals (try (simp at h; done))
+  all_goals (
+    simp only [List.length_cons, Prod.mk.injEq, Nat.add_right_cancel_iff] at h
+    obtain ⟨h1, h2⟩ := h
+    subst h1 h2
+    rename_i ih hx
+    have := ih fol hx hf
+    rw [List.cons_append, scanNumber]
+    simp_all)
 end Gojq.RefTerm
